@@ -165,7 +165,11 @@ func c03Recover(rep *kit.Report, c c03Case, im vImage, m vModel, work string, de
 	got, err := vFullDump(v)
 	if err != nil {
 		_ = v.Close()
-		rep.Violation("recovery_read_error", c.key(), fmt.Sprintf("crash %s: %v", where, err), c)
+		kind := "recovery_read_error"
+		if strings.Contains(err.Error(), "stream shape") {
+			kind = "duplicate_or_unsorted_rows_after_crash_in_reorg"
+		}
+		rep.Violation(kind, c.key(), fmt.Sprintf("crash %s: %v", where, err), c)
 		return
 	}
 	if diffs := vCompareFull(m.Clone(), got); len(diffs) > 0 {
